@@ -1,6 +1,6 @@
 HOOK_COMMITS = ["bc7826eeb31079b932557c6566a10da9b9acc9ce"]
 _PENDING = "check not built yet in this round (planned, see DESIGN.md section 9); not a statement that the technique cannot apply"
-NOT_APPLICABLE = {p: _PENDING for p in ["C05","C16"]}
+NOT_APPLICABLE = {p: _PENDING for p in ["C05"]}
 TEXT = {
  "C17": {
   "text": "Lean mirror of integer.h / dyadic_rational.h / rational.h; theorems for every modulus m>=2 and every operand state that each "
@@ -98,6 +98,23 @@ TEXT = {
   "design_ref": "5.19",
   "note": "clause (c) is runtime monitoring on generated inputs, not proof (no executable Lean model can exhibit out-of-bounds access); variable_db/variable_order counters are opaque and observed only via sanitizers",
   "technique": "Lean 4 invariant proof (refcount protocol) + correspondence with aliased/pre-used outputs + sanitizer monitoring",
+ },
+ "C16": {
+  "text": "Bound inference: for A = sum_k (a_k x_k^2 + b_k x_k) + c with all a_k of one sign the validator decides every claim exactly: "
+          "D = sum b_k^2/(4a_k) - c, projection of the solution set on x_k = segment between the real roots of "
+          "a_k x^2 + b_k x + b_k^2/(4a_k) - D (compared with the inferred end points by the proved algebraic comparison, strictness "
+          "included), conflict accepted only for an empty solution set, no bounded interval accepted for >, >=, != shapes, explanation "
+          "polynomial univariate with exactly the inferred end points as real roots (proved root counter). Proved over the reals for "
+          "all inputs: completing the square, a summand of a sum of non-negative terms is bounded by the sum, a point with "
+          "a(x-r1)(x-r2) <= 0 (< 0) lies (strictly) between the roots, emptiness for D < 0 / D = 0 strict (C16_complete_square, "
+          "C16_projection, C16_between_roots(_strict), C16_no_solution). Fourier-Motzkin: the driver requires the resolvent to be free "
+          "of the main variable, recomputes the positive combination with the model (model-based reductum, normalisation to <, <=, =, "
+          "exact signs of the leading coefficients under the model, condition table, recorded assumptions) and compares; proved: the "
+          "combination cancels the main variable and is < 0 / <= 0 wherever both premises hold and the leading coefficients have the "
+          "recorded signs, an equation premise may take any multiplier (C16_fm_elim, C16_fm_lt, C16_fm_le, C16_fm_eq, C16_fmCond_table).",
+  "design_ref": "5.16",
+  "note": "found and fixed: resolve_fm accepted equal leading-coefficient signs (resolvent still contained the variable) and refused opposite signs",
+  "technique": "Lean 4 proved real-arithmetic soundness lemmas + exact per-output validation of the C results",
  },
  "C11": {
   "text": "lp_polynomial_roots_isolate under a partial assignment is compared root by root (proved exact comparison) with the model: "
